@@ -379,10 +379,11 @@ func genToken(r *vh.Rand, safe bool) string {
 		case 4:
 			id = r.U64()>>2 | 1
 		}
-		if safe {
-			switch id {
-			case 1, 4, 5, 6, 7, 8, 9, 11, 14, 32:
-				id += 100
+		if safe { // no raw parameter under an id uTLS has a dedicated type for (PopulateFromUQUIC type-asserts those)
+			for _, sid := range stdIDs {
+				if id == sid {
+					id += 100
+				}
 			}
 		}
 		return fmt.Sprintf("F%d=%s", id, hx(r.Bytes([]int{0, 1, 2, 4, int(r.Range(0, 80))}[r.Intn(5)])))
@@ -633,8 +634,8 @@ func (rn *runner) Exec(op string) string {
 		if tp.DisableActiveMigration {
 			dm = 1
 		}
-		return fmt.Sprintf("in=%s n=%d,%d,%d,%d,%d,%d,%d,%d,%d,%d dm=%d scid=%s ov=%s wire=%s left=%s", in,
-			int64(tp.MaxIdleTimeout), int64(tp.InitialMaxData), int64(tp.InitialMaxStreamDataBidiLocal),
+		return fmt.Sprintf("in=%s n=%d,%d,%d,%d,%d,%d,%d,%d,%d,%d,%d dm=%d scid=%s ov=%s wire=%s left=%s", in,
+			int64(tp.MaxIdleTimeout), int64(tp.MaxUDPPayloadSize), int64(tp.InitialMaxData), int64(tp.InitialMaxStreamDataBidiLocal),
 			int64(tp.InitialMaxStreamDataBidiRemote), int64(tp.InitialMaxStreamDataUni), int64(tp.MaxBidiStreamNum),
 			int64(tp.MaxUniStreamNum), int64(tp.MaxAckDelay), tp.ActiveConnectionIDLimit, int64(tp.MaxDatagramFrameSize),
 			dm, hx(tp.InitialSourceConnectionID.Bytes()), hx(tp.ClientOverride), hx(body), tokensOf(ext.TransportParameters))
@@ -883,7 +884,7 @@ func (t *recTrace) RecordEvent(ev qlogwriter.Event) {
 	if t.rec != "" {
 		return
 	}
-	t.rec = fmt.Sprintf("%d,%d,%d,%d,%d,%d,%d,%d,%d,%d;%d;%s", int64(ps.MaxIdleTimeout), int64(ps.InitialMaxData),
+	t.rec = fmt.Sprintf("%d,%d,%d,%d,%d,%d,%d,%d,%d,%d,%d;%d;%s", int64(ps.MaxIdleTimeout), int64(ps.MaxUDPPayloadSize), int64(ps.InitialMaxData),
 		int64(ps.InitialMaxStreamDataBidiLocal), int64(ps.InitialMaxStreamDataBidiRemote), int64(ps.InitialMaxStreamDataUni),
 		ps.InitialMaxStreamsBidi, ps.InitialMaxStreamsUni, int64(ps.MaxAckDelay), ps.ActiveConnectionIDLimit,
 		int64(ps.MaxDatagramFrameSize), dm, hx(ps.InitialSourceConnectionID.Bytes()))
@@ -910,6 +911,9 @@ func (rn *runner) dial(spec *quic.QUICSpec) (res dialResult) {
 	go func() {
 		defer func() {
 			if e := recover(); e != nil {
+				if os.Getenv("VH_DEBUG") != "" {
+					fmt.Fprintf(os.Stderr, "dial panic: %v\n", e)
+				}
 				done <- "PANIC"
 				return
 			}
@@ -926,6 +930,10 @@ func (rn *runner) dial(spec *quic.QUICSpec) (res dialResult) {
 			}
 		case <-time.After(10 * time.Second):
 			res.err = "E:dialhang"
+		}
+		if res.err == "PANIC" || res.err == "E:dialhang" {
+			clientConn.Close() // the panic unwound through Transport.dial with its mutex held: Close would block forever
+			return
 		}
 		tr.Transport.Close()
 		clientConn.Close()
